@@ -2,7 +2,7 @@
 from vlib.tok import f64, s as S, lst
 from checks import regiongen as G
 ID = 'C06'
-THEOREMS = []
+THEOREMS = ['Nix.C06.mtagOffsetCount_rows', 'Nix.C06.prepare_ok', 'Nix.C06.prepare_indep', 'Nix.C06.mtag_list_eq_map_single', 'Nix.C06.mtag_single_of_list', 'Nix.C06.mtag_index_oob', 'Nix.C06.mtag_region_spec', 'Nix.C06.mtag_feature_tagged', 'Nix.C06.mtag_feature_untagged', 'Nix.C06.mtag_feature_indexed_single', 'Nix.C05.mtagDim_spec']
 RULE = ('random multi-tags: N<=8 positions; 1-D positions tagging 1-D data, N x D tagging D-dimensional data, D2 != D; with / without extents; '
         'all descriptor kinds as in C05; default (Exclusive) and Inclusive; single indices, index lists with repeats, the empty list (= all), '
         'indices beyond N; all link types. non-trivial = the model returned at least one region; distinct = distinct op line.')
@@ -99,3 +99,6 @@ def signature(f):
     return '%s:%s:%s' % (f.kind, op, f.rule())
 def minimal(f):
     return [f.case.lines[f.line_no]]
+
+LEVEL_TEXT = ('Lean 4 theorems for every positions/extents matrix, index list and descriptor combination: region i obeys the Tag rule on row i of positions/extents (same theorem as C05, with zero extent read as end == start); the j-th region of a list retrieval is the region of the single retrieval of its j-th index and vice versa; an index beyond the number of positions raises OutOfBounds; indexed features are slice i of the first dimension, untagged whole, tagged cut like references. Model tied by element-exact correspondence incl. the default Exclusive mode; every answer judged by the coordinate-level evaluator. Unspecified dimensions in Exclusive mode: known finding K2.')
+LEVEL_NOTE = ('Trusted: as C05; positions and extents of equal shape; non-empty index lists for getOffsetAndCount.')
